@@ -110,6 +110,33 @@ impl Expr {
             Expr::Not(a) => format!("!({})", a.text()),
         }
     }
+    /// the same tree written with the fewest parentheses the grammar allows
+    /// (`!` binds tighter than `&&`, `&&` tighter than `||`, both left-associative)
+    pub fn text_min(&self) -> String {
+        fn prec(e: &Expr) -> u8 {
+            match e {
+                Expr::Or(..) => 0,
+                Expr::And(..) => 1,
+                _ => 2,
+            }
+        }
+        fn wrap(e: &Expr, need: u8) -> String {
+            if prec(e) < need {
+                format!("({})", e.text_min())
+            } else {
+                e.text_min()
+            }
+        }
+        match self {
+            Expr::Cmp(..) | Expr::ArithCmp(..) => self.text(),
+            Expr::And(a, b) => format!("{} && {}", wrap(a, 1), wrap(b, 2)),
+            Expr::Or(a, b) => format!("{} || {}", wrap(a, 0), wrap(b, 1)),
+            Expr::Not(a) => match **a {
+                Expr::Not(_) => format!("!{}", a.text_min()),
+                _ => format!("!({})", a.text_min()),
+            },
+        }
+    }
     pub fn vars(&self, out: &mut Vec<String>) {
         match self {
             Expr::Cmp(v, _, t) => {
@@ -293,6 +320,8 @@ pub struct Style {
     pub newlines: bool,
     /// declare `PREFIX k: <http://k/>` and print vocabulary IRIs as prefixed names
     pub prefixed: bool,
+    /// write FILTER expressions with the fewest parentheses (operator precedence decides)
+    pub min_parens: bool,
 }
 
 fn kw(s: &Style, k: &str) -> String {
@@ -357,7 +386,7 @@ pub fn print_p(p: &P, st: &Style) -> String {
             };
             format!("{} {} {} ", kw(st, "GRAPH"), name, print_group(g, st))
         }
-        P::Filter(e) => format!("{}({}) ", kw(st, "FILTER"), e.text()),
+        P::Filter(e) => format!("{}({}) ", kw(st, "FILTER"), if st.min_parens { e.text_min() } else { e.text() }),
         P::Bind(args, v) => {
             let a: Vec<String> = args
                 .iter()
